@@ -146,9 +146,17 @@ def watchH : Handler := fun inp impl => do
   -- the property on the implementation's own output: no spin (between two loader invocations a sleep — which
   -- ends the observation — or a publication), and only sets made from usable material are ever published
   let goodSets := mats.toList.filterMap mkCerts
-  let spec := iCalls != -1 && iCalls ≤ iPubs.length + 1 && iPubs.all (fun p => goodSets.contains p)
-  return ({ model := model, agree := agree, spec := spec,
-            nontrivial := o.sawBad || o.pubs.length ≥ 2, tag := o.lastTag } : Verdict).toJson
+  let safe := iCalls != -1 && iCalls ≤ iPubs.length + 1 && iPubs.all (fun p => goodSets.contains p)
+  -- … and a newly delivered set takes effect: the set in force at the end of the observation is the one made from
+  -- the usable material delivered last (the store starts empty)
+  let executed := (List.range iCalls.toNat).filterMap fun i => script[min i (script.size - 1)]?
+  let lastGood := (executed.filterMap fun r => match r with | .blocks m => mkCerts m | .err => none).getLast?
+  let live := match lastGood with
+    | some s => iPubs.getLast?.getD [] == s
+    | none => true
+  return ({ model := model, agree := agree, spec := safe && live,
+            nontrivial := o.sawBad || o.pubs.length ≥ 2,
+            tag := if safe && !live then "usable-material-not-published" else o.lastTag } : Verdict).toJson
 
 /-! ### c11.watch_gap -/
 
@@ -573,9 +581,15 @@ def sourceH : Handler := fun inp impl => do
   -- which the source delivered everything it announced (never what is left of a failing or partly failing load)
   let canonM (m : Mat) : Mat := m.map fun b => b.mergeSort (fun a b => lexLe a.1 b.1)
   let goodSets := epochs.filterMap fun e => (srcDeclared kind base e).bind fun m => mkCerts (canonM m)
-  let spec := iCalls != -1 && iCalls ≤ iPubs.length + 1 && iPubs.all (fun p => goodSets.contains p)
-  return ({ model := model, agree := agree, spec := spec,
-            nontrivial := o.sawBad || o.pubs.length ≥ 2, tag := kind ++ ":" ++ o.lastTag } : Verdict).toJson
+  let safe := iCalls != -1 && iCalls ≤ iPubs.length + 1 && iPubs.all (fun p => goodSets.contains p)
+  let declared := (epochs.map fun e => (srcDeclared kind base e).bind fun m => mkCerts (canonM m)).toArray
+  let lastGood := ((List.range iCalls.toNat).filterMap fun i => (declared[min i (declared.size - 1)]?).join).getLast?
+  let live := match lastGood with
+    | some s => iPubs.getLast?.getD [] == s
+    | none => true
+  return ({ model := model, agree := agree, spec := safe && live,
+            nontrivial := o.sawBad || o.pubs.length ≥ 2,
+            tag := kind ++ ":" ++ (if safe && !live then "usable-material-not-published" else o.lastTag) } : Verdict).toJson
 
 /-! ### c11.e2e -/
 
